@@ -18,25 +18,40 @@ def cfg(chk, name, maxstmts, provider, emit=False):
 
 def render(script, style="plain"):
     out = []
+    head = "create table %s as" if style == "ctas_stale" else "insert into %s"
     for k, s in enumerate(script):
         t, f = TARGETS[k], s["f"]
+        if style == "ctas_stale":
+            # every statement DEFINES its target (CREATE TABLE AS) while the provider's catalog still lists an older layout of it:
+            # what the script says about a table it creates wins over the catalog
+            pass
         if s["k"] == "mk" and style == "derived":
             # the same flows through a derived table that every statement calls q (a statement-local name re-used across statements)
             inner = ", ".join(sorted({i["c"] for i in s["items"]}))
             its = ", ".join("q." + i["c"] if i["c"] == i["al"] else "q.%s as %s" % (i["c"], i["al"]) for i in s["items"])
-            out.append("insert into %s select %s from (select %s from %s) q" % (t, its, inner, f))
+            out.append((head + " select %s from (select %s from %s) q") % (t, its, inner, f))
         elif s["k"] == "mk":
             its = ", ".join(i["c"] if i["c"] == i["al"] else "%s as %s" % (i["c"], i["al"]) for i in s["items"])
-            out.append("insert into %s select %s from %s" % (t, its, f))
+            out.append((head + " select %s from %s") % (t, its, f))
         elif s["k"] == "expr":
-            out.append("insert into %s select a + b as s from %s" % (t, f))
+            out.append((head + " select a + b as s from %s") % (t, f))
         elif s["k"] == "star":
-            out.append("insert into %s select * from %s" % (t, f))
+            out.append((head + " select * from %s") % (t, f))
         elif s["k"] == "unq2":
-            out.append("insert into %s select %s as x2, %s as y2 from %s join oth on 1 = 1" % (t, s["c"], s["c"], f))
+            out.append((head + " select %s as x2, %s as y2 from %s join oth on 1 = 1") % (t, s["c"], s["c"], f))
         else:
-            out.append("insert into %s select %s from %s join oth on 1 = 1" % (t, s["c"], f))
+            out.append((head + " select %s from %s join oth on 1 = 1") % (t, s["c"], f))
     return ";\n".join(out)
+
+
+def _layouts_defined(script):
+    known = {}
+    for k, st in enumerate(script):
+        if st["k"] == "star":
+            if not known.get(st["f"], False):
+                return False
+        known[TARGETS[k]] = True
+    return True
 
 
 def _chunk(cases):
@@ -63,7 +78,10 @@ def _chunk(cases):
         sql = render(c["script"], c.get("style", "plain"))
         o = {"sql": sql, "exc": "none", "pairs": []}
         try:
-            kw = {"metadata_provider": DummyMetaDataProvider({"zz.unrelated": ["q"]})} if c["provider"] else {}
+            md = {"zz.unrelated": ["q"]}
+            if c.get("style") == "ctas_stale":
+                md.update({"<default>." + t: ["stale_1", "stale_2", "stale_3"] for t in TARGETS})
+            kw = {"metadata_provider": DummyMetaDataProvider(md)} if c["provider"] else {}
             lr = LineageRunner(sql, **kw)
             o["pairs"] = sorted({(tuple(atom(p[0])), tuple(atom(p[-1]))) for p in lr.get_column_lineage()})
             o["pairs"] = [[list(a), list(b)] for a, b in o["pairs"]]
@@ -97,6 +115,11 @@ def run(chk):
         cases += cs
         # the same scripts once more with every explicit statement written through a derived table called q
         cases += [dict(c, style="derived") for c in cs if any(s["k"] == "mk" for s in c["script"])][::3 if quick else 1]
+        if prov:
+            # ... and as CREATE TABLE AS statements while the catalog lists an older layout of every target
+            # (a wildcard over a table whose layout the script leaves open - SELECT * FROM src - gives the catalog nothing to be
+            # overruled by: such scripts are not written this way)
+            cases += [dict(c, style="ctas_stale") for c in cs if _layouts_defined(c["script"])][::3 if quick else 1]
     chk.require_actions(["Next"]) if False else None
     pool = mp.Pool(16)
     try:
@@ -135,5 +158,5 @@ def run(chk):
                        "composition of the per-statement flows. non-trivial = a later statement reads an earlier target." % (3 if quick else 4))
     chk.exhaustive = True
     chk.cov["exhaustive"] = True
-    chk.assumptions += ["the provider in use knows an unrelated table only (it is truthy, so session metadata is consulted)",
+    chk.assumptions += ["the provider in use knows an unrelated table only (it is truthy, so session metadata is consulted); in the CREATE TABLE AS rendering its catalog also lists a stale layout of every target",
                         "every unqualified-in-a-join statement joins the same second table (different candidate sets for one column name are the known deviation KF-C04-1, not generated)"]
